@@ -1,7 +1,7 @@
 // C17 native replay: split a message for end-to-end encryption with the REAL library (public part = toXml(ScePublic),
 // sensitive part = serializeExtensions(SceSensitive) inside an SCE <content/>), parse both parts back the way the
 // OMEMO receive path does (parse(public, ScePublic); parseExtensions(content, SceSensitive)) and evaluate the property.
-//   replay_split jmi | callinvite | extensions | pubsub | control | all        exit 1 + "VIOLATED ..." if a scenario violates the property
+//   replay_split jmi | callinvite | extensions | pubsub | consumed | control | all        exit 1 + "VIOLATED ..." if a scenario violates the property
 #include <QDomDocument>
 #include <QXmlStreamWriter>
 #include <QTextStream>
@@ -158,6 +158,29 @@ static void scenarioPubSub()
     check("pubsub", "sensitive part contains the <event/> payload", sens.contains("ZZ-retract-ZZ") && sens.contains("ZZ-node-ZZ"));
 }
 
+static void consumedOne(const char *what, const QByteArray &element, const char *marker)
+{
+    // an element of a known sensitive extension whose payload does not parse arrives in the sensitive part: it must be consumed,
+    // not stored as an unknown extension (unknown extensions are written by toXml(ScePublic))
+    QDomDocument d;
+    QXmppMessage r;
+    r.parseExtensions(dom("<content xmlns='urn:xmpp:sce:1'>" + element + "</content>", d), QXmpp::SceSensitive);
+    QByteArray pub = publicPart(r);
+    check("consumed", what, r.extensions().isEmpty() && !pub.contains(marker));
+}
+
+static void scenarioConsumed()
+{
+    consumedOne("<file-sharing xmlns='urn:xmpp:sfs:0'/> without <file/> metadata is consumed, its sources do not reach the public part",
+                "<file-sharing xmlns='urn:xmpp:sfs:0' disposition='inline'><sources><url-data xmlns='http://jabber.org/protocol/url-data' target='https://ZZ-sfs-url-ZZ/secret'/></sources></file-sharing>",
+                "ZZ-sfs-url-ZZ");
+    consumedOne("<sources xmlns='urn:xmpp:sfs:0'/> without id is consumed", "<sources xmlns='urn:xmpp:sfs:0'><url-data xmlns='http://jabber.org/protocol/url-data' target='https://ZZ-src-ZZ/'/></sources>", "ZZ-src-ZZ");
+    consumedOne("unknown chat marker element is consumed", "<ZZ-marker-ZZ xmlns='urn:xmpp:chat-markers:0' id='1'/>", "ZZ-marker-ZZ");
+    consumedOne("<html xmlns='http://jabber.org/protocol/xhtml-im'/> without body is consumed", "<html xmlns='http://jabber.org/protocol/xhtml-im'><ZZ-html-ZZ/></html>", "ZZ-html-ZZ");
+    consumedOne("unknown chat state element is consumed", "<ZZ-state-ZZ xmlns='http://jabber.org/protocol/chatstates'/>", "ZZ-state-ZZ");
+    consumedOne("<fallback xmlns='urn:xmpp:fallback:0'/> without 'for' is consumed", "<fallback xmlns='urn:xmpp:fallback:0'><ZZ-fb-ZZ/></fallback>", "ZZ-fb-ZZ");
+}
+
 int main(int argc, char **argv)
 {
     const char *which = argc > 1 ? argv[1] : "all";
@@ -167,6 +190,7 @@ int main(int argc, char **argv)
     if (all || !strcmp(which, "callinvite")) scenarioCallInvite();
     if (all || !strcmp(which, "extensions")) scenarioExtensions();
     if (all || !strcmp(which, "pubsub")) scenarioPubSub();
+    if (all || !strcmp(which, "consumed")) scenarioConsumed();
     printf("%d check(s) violated\n", violated);
     return violated ? 1 : 0;
 }
